@@ -610,6 +610,50 @@ impl Dy {
         Some((hi, lo))
     }
 
+    /// |self| ~= m * 2^e with m in [2^63, 2^64) (top 64 bits, truncated); None for zero
+    pub fn top_bits(&self) -> Option<(u64, i32)> {
+        let p = self.msb()?;
+        Some((self.bits_at(p - 63, 64), p - 63))
+    }
+    /// approximate |self| / |o| as an f64 (relative accuracy ~2^-52; 0 if self is zero,
+    /// +inf if o is zero and self is not)
+    pub fn approx_ratio(&self, o: &Dy) -> f64 {
+        match (self.top_bits(), o.top_bits()) {
+            (None, _) => 0.0,
+            (Some(_), None) => f64::INFINITY,
+            (Some((ma, ea)), Some((mb, eb))) => {
+                let r = ma as f64 / mb as f64;
+                let d = ea - eb;
+                if d > 1000 {
+                    f64::INFINITY
+                } else if d < -1000 {
+                    0.0
+                } else {
+                    r * (2.0f64).powi(d)
+                }
+            }
+        }
+    }
+    /// Is |self| <= k * 2^s * |o| ?  (exact)  Returns (holds, approx ratio |self| / (k 2^s |o|)).
+    pub fn within(&self, k: u64, s: i32, o: &Dy) -> (bool, f64) {
+        if self.is_zero() {
+            return (true, 0.0);
+        }
+        if o.is_zero() {
+            return (false, f64::INFINITY);
+        }
+        // quick accept: |self| < 2^(msb+1) and k*2^s*|o| >= 2^(s + msb_o)
+        let me = self.msb().unwrap();
+        let mo = o.msb().unwrap();
+        if me + 1 + 3 <= s + mo {
+            // at least a factor 8 below the bound
+            return (true, self.approx_ratio(o) / (k as f64) * (2.0f64).powi((-s).clamp(-1000, 1000)));
+        }
+        let bound = o.abs().mul_u64(k).mul_pow2(s);
+        let ok = self.cmp_abs(&bound) != Ordering::Greater;
+        (ok, self.approx_ratio(&bound))
+    }
+
     /// Compare |self| * 2^sa with |o| * ko * 2^so  (ko a small integer); used for tolerance tests.
     pub fn cmp_abs_scaled(&self, sa: i32, o: &Dy, ko: u64, so: i32) -> Ordering {
         let a = self.abs().mul_pow2(sa);
